@@ -304,7 +304,7 @@ func workerReplay(t *testing.T, job *Job, known *KnownFindings, out *WorkerOut) 
 		panic(err)
 	}
 	rf.Spec.Replay = true
-	rf.Spec.NoKnownSoft = true
+	// (known findings are soft here exactly when the job names the known-findings file; reproducers of known findings are replayed without it)
 	var raceBefore int64
 	if job.RaceLog != "" {
 		_, raceBefore = raceLogSize(job.RaceLog)
